@@ -57,7 +57,10 @@ FLAVOURS = {
 FLAVOURS["cov"] = {
     # source-based coverage of /repo/src under a check's own workload (stage `reach`, thorough tier)
     "dir": "harness",
-    "env": {"CARGO_TARGET_DIR": os.path.join(TARGET, "cov")},
+    # build scripts and proc-macros are instrumented too and would drop default_*.profraw into the package
+    # directories (/repo among them): send those profiles into the flavour's own target directory
+    "env": {"CARGO_TARGET_DIR": os.path.join(TARGET, "cov"),
+            "LLVM_PROFILE_FILE": os.path.join(TARGET, "cov", "build-profiles", "b-%p-%m.profraw")},
     "rustflags": "-Cinstrument-coverage --cap-lints=warn",
     "fp_root": os.path.join(TARGET, "cov"),
     "build": ["cargo", "+nightly", "build", "--offline", "--profile", "mon"],
